@@ -337,7 +337,11 @@ func traceHarnessS(budget int, nprocs int, esrch bool, script []scriptEv) {
 	// record the verdict on the stopped process when the handler is consulted
 	hook := &hookHandler{inner: h, k: k}
 	t := &Tracer{Handler: hook, Limit: runner.Limit{TimeLimit: 1 << 62, MemoryLimit: 1 << 62}}
+	baseThreads := sym.ThreadsAlive()
 	res := t.trace(context.Background(), pgid)
+	// C12: the caller's context is never cancelled: nothing of the run may stay behind
+	sym.WaitOthers()
+	sym.Assert(sym.ThreadsAlive() == baseThreads, "a goroutine of the run is left behind while the caller's context lives on")
 
 	sym.Assert(k.groupKilled, "the process group must be killed before trace returns")
 	for _, p := range k.procs {
